@@ -257,6 +257,18 @@ Additions for the command-line wrappers (batchie/cli/*.py main functions):
                       refused when `module` is a bound variable of the function (that would be a method call on an object)
   cfg["state_calls"]  a state call may be assigned to a tuple of names `(a, b) = <pattern>` when its value type is the tuple
                       of their declared types: `dor (a, b, s1, ..., sn) <- template;`
+Additions for retrospective.py (the generators / size smoothers / SparseCover linked to Model/Retro.v, Model/RetroInit.v; C13):
+  cfg["expr_state_calls"]  [(pattern, [state variables], template, value type, {hole: type})], as cfg["state_calls"], but matched in
+                      EXPRESSION position (`np.array_split(rng.permutation(a), n)`: the draw is an argument of another call): the
+                      template denotes a `result (T * S1 * ... * Sn)` and is bound, where Python evaluates the call (after its own
+                      arguments, before the enclosing call), by `dor (r, s1, ..., sn) <- template;` - so the state variables are
+                      rebound for everything evaluated later.  Default monad only; the state variables must be bound; every
+                      statement containing such a call counts as assigning the state variables (loops and `if`s carry them).
+                      Refused inside a comprehension, a lambda or a conditional expression (the binding would be local to one
+                      element / branch) and - like every hoisted call - in a later operand of and/or.
+  cfg["while_cond"]   True: `while c: body` (with cfg["while_fuel"]) is `while True: if not c: break; body` - the test is
+                      evaluated before every iteration, on explicit fuel like `while True` (Err 97 when the fuel runs out, which
+                      is not a Python behaviour: links are stated for sufficient fuel).  Without the key only `while True:` is accepted.
 """
 import ast
 
@@ -356,6 +368,9 @@ class Tr:
         self.state_calls = [(pat(x[0]), list(x[1]), x[2], parse_type(x[3]), {h: parse_type(t) for h, t in (x[4] if len(x) > 4 else {}).items()})
                             for x in cfg.get("state_calls", [])]
         self.return_state = list(cfg.get("return_state", []))
+        self.expr_state_calls = [(pat(x[0]), list(x[1]), x[2], parse_type(x[3]), {h: parse_type(t) for h, t in (x[4] if len(x) > 4 else {}).items()})
+                                 for x in cfg.get("expr_state_calls", [])]
+        self.no_state_nodes = set()      # ids of the AST nodes inside comprehensions / lambdas / conditional expressions
         spat = lambda p: Rename().visit(ast.parse(p)).body[0]
         self.assign_effects = [(spat(p), var, tmpl) for p, var, tmpl in cfg.get("assign_effects", [])]
         # object attributes: {attr: (owner type, field type, getter template, setter template)}
@@ -449,6 +464,20 @@ class Tr:
                 return "(" + tmpl.format(**args) + ")", ty
         if misfit is not None:
             raise Unsupported("no prim of this pattern fits the argument types: %s (%s)" % (ast.unparse(e), misfit))
+        for patn, svars, tmpl, vty, argtys in self.expr_state_calls:      # cfg["expr_state_calls"]: a stateful call in expression position
+            binds = {}
+            if self.unify(patn, e, binds):
+                if id(e) in self.no_state_nodes or self.M["type"] != "result":
+                    raise Unsupported("stateful call inside a comprehension / lambda / conditional expression: " + ast.unparse(e))
+                if any(v not in env or env[v] == ("unit",) for v in svars):
+                    raise Unsupported("stateful call on an unbound state variable: " + ast.unparse(e))
+                args = {}
+                for kk, v in binds.items():
+                    a, at = self.expr(v, env, hoist)
+                    args[kk[2:]] = self.need(a, at, argtys[kk[2:]], hoist) if kk[2:] in argtys else a
+                n = self.new("r")
+                hoist.append(("(" + ", ".join([n] + svars) + ")", tmpl.format(**args)))
+                return n, vty
         if isinstance(e, ast.Call) and isinstance(e.func, ast.Name) and e.func.id.startswith("STMTPRIM:"):
             _, _, tmpl, ty, argtys = self.stmt_prims[int(e.func.id[len("STMTPRIM:"):])]
             for kw in e.keywords:
@@ -848,6 +877,11 @@ class Tr:
         for st in stmts:
             if self.is_ignored(st):
                 continue
+            for node in (ast.walk(st) if self.expr_state_calls else ()):      # cfg["expr_state_calls"]: the state they rebind
+                for patn, svars, _t, _v, _a in self.expr_state_calls:
+                    if isinstance(node, ast.expr) and self.unify(patn, node, {}):
+                        for n in svars:
+                            add(n)
             if isinstance(st, ast.Assign) and any(self.unify(patn, st, {}) for patn, _v, _t in self.assign_effects):
                 for patn, var, _t in self.assign_effects:
                     if self.unify(patn, st, {}):
@@ -1793,6 +1827,12 @@ class Tr:
             raise Unsupported("while loop with an else clause")
         if not plain and isinstance(st.test, ast.Constant):
             raise Unsupported("while loop over a constant other than True: " + ast.unparse(st.test))
+        if self.cfg.get("while_cond") and not (isinstance(st.test, ast.Constant) and st.test.value is True) and not st.orelse:
+            # cfg["while_cond"]: `while c: body` is `while True: if not c: break; body`
+            leave = ast.If(test=ast.UnaryOp(op=ast.Not(), operand=st.test), body=[ast.Break()], orelse=[])
+            st = ast.While(test=ast.Constant(value=True), body=[ast.copy_location(leave, st)] + list(st.body), orelse=[])
+        if not (isinstance(st.test, ast.Constant) and st.test.value is True) or st.orelse:
+            raise Unsupported("while loop other than `while True:` without else")
         if fuel is None or env.get(fuel) != ("nat",) or self.M["type"] != "result":
             raise Unsupported("while loop without a declared fuel parameter of type nat")
         if self.has_jump(st.body, (ast.Return,)):
@@ -1868,6 +1908,9 @@ class Tr:
                 raise Unsupported("return_state needs declared state parameters and explicit returns")
             rtype = "(%s)" % " * ".join([rtype] + [coq_type(env[v]) for v in self.return_state])
         self.rewrite_runs(f.body)
+        for node in ast.walk(f):      # cfg["expr_state_calls"] are refused inside these
+            if isinstance(node, (ast.ListComp, ast.SetComp, ast.DictComp, ast.GeneratorExp, ast.Lambda, ast.IfExp)):
+                self.no_state_nodes.update(id(sub) for sub in ast.walk(node))
         body = self.block(list(f.body), env, kfun, ind)
         return "Definition %s %s : %s %s :=\n%s%s." % (cfg["name"], " ".join(params), self.M["type"], rtype, pre, body.rstrip("\n"))
 
